@@ -365,3 +365,43 @@ def consts_projection(run):
     for n, c in custom.items():
         if c.__bases__ != (Exception,):
             run.disagree("P-consts", {"constant": "bases of " + n}, "(Exception,)", str(c.__bases__), ["(which handler catches it: the model treats the classes as unrelated)"])
+
+
+def environment_projection(run):
+    """P-env: the model's inputs are the call arguments, the store directory and ONE environment variable
+    (USE_MULTIPROCESSING, Config.v mode_of_env).  The library source is scanned for every environment variable it reads
+    (os.getenv / os.environ.get / os.environ[...] with a literal key; a non-literal key is reported as such): any other
+    name is configuration the model does not know, and no projection could have exercised it."""
+    import ast
+    import glob
+    from universe import REPO
+    found = {}
+    for path in sorted(glob.glob(os.path.join(REPO, "src", "hashstore", "*.py"))):
+        if os.path.basename(path) == "hashstoreclient.py":
+            continue                                     # the client sets the variable for its own process (C20 covers the client)
+        try:
+            tree = ast.parse(open(path).read())
+        except SyntaxError:
+            continue
+        for node in ast.walk(tree):
+            key = None
+            if isinstance(node, ast.Call) and isinstance(node.func, ast.Attribute):
+                f = node.func
+                is_getenv = f.attr == "getenv" and isinstance(f.value, ast.Name) and f.value.id == "os"
+                is_envget = f.attr in ("get", "pop", "setdefault") and isinstance(f.value, ast.Attribute) and f.value.attr == "environ"
+                if (is_getenv or is_envget) and node.args:
+                    key = node.args[0].value if isinstance(node.args[0], ast.Constant) else "<computed>"
+            elif isinstance(node, ast.Subscript) and isinstance(node.value, ast.Attribute) and node.value.attr == "environ" \
+                    and isinstance(node.ctx, ast.Load):
+                sl = node.slice
+                key = sl.value if isinstance(sl, ast.Constant) else "<computed>"
+            elif isinstance(node, ast.Attribute) and node.attr in ("environ", "environb") and isinstance(node.value, ast.Name) and node.value.id == "os":
+                found.setdefault("<os.environ>", os.path.basename(path))
+                continue
+            if key is not None:
+                found[str(key)] = os.path.basename(path)
+    names = sorted(k for k in found if k != "<os.environ>")
+    run.case("P-env", tuple(names), nontrivial=True, sample={"projection": "P-env", "variables_read_by_the_library": names})
+    if names != ["USE_MULTIPROCESSING"]:
+        run.disagree("P-env", {"environment variables read": names}, ["USE_MULTIPROCESSING"], names,
+                     ["(every theorem: the model's behaviour depends on no other configuration; Config.v mode_of_env)"])
